@@ -267,7 +267,7 @@ def layer1(chk, tier):
     if "SoundDesign" not in rb.violated:
         raise ToolError("self-test: HintAdversary with BUG=TRUE did not violate SoundDesign")
 
-    progs = e2e_programs() + file_programs(tier)
+    progs = e2e_programs() + file_programs(tier) + c03_families.candidate_programs()
     plan = {"programs": progs, "inputs_per_fn": 2 if tier == "quick" else 8, "max_occ": 6 if tier == "quick" else 30,
             "max_steps": 300000, "max_fns": 6 if tier == "quick" else 12,
             "mined_inputs_per_fn": 3 if tier == "quick" else 12}
